@@ -200,7 +200,7 @@ class SArr(PyObj):
         frozen = SArr(self.name + "'", self.shape_, self.elem, self.blank0)
         frozen.writes = list(self.writes)
         for k_, v_ in self.__dict__.items():
-            if k_ not in ('name', 'shape_', 'elem', 'writes', 'blank0', 'view_of'):
+            if k_ not in ('name', 'shape_', 'elem', 'writes', 'blank0', 'view_of', 'view_axes'):
                 setattr(frozen, k_, v_)
         return frozen
 
@@ -265,6 +265,7 @@ class SArr(PyObj):
         v = SArr(self.name + "[view]", vshape, lambda idx: base.at(full_index(idx)),
                  lambda idx: base.isnan(full_index(idx)))
         v.view_of = (base, full_index)
+        v.view_axes = axes
         return v
 
     def iter_(self, ctx):
@@ -282,7 +283,7 @@ class SArr(PyObj):
             isn = isinstance(value, NaNType)
             if isinstance(value, (SArr, PyObj)):
                 raise Undecided("boolean mask assignment of an array")
-            self.writes.append((lambda idx: m.at(idx), lambda idx: (0 if isn else value), lambda idx: isn))
+            self._push_write(lambda idx: m.at(idx), lambda idx: (0 if isn else value), lambda idx: isn)
             return
         axes = self._axes(ctx, key)
         vshape = tuple(a.count for a in axes if isinstance(a, (Axis, Pick)))
@@ -336,7 +337,32 @@ class SArr(PyObj):
             if src is None:
                 return isn
             return src.isnan(src_index(idx))
-        self.writes.append((cond, val, nanf))
+        self._push_write(cond, val, nanf)
+
+    def _push_write(self, cond, val, nanf):
+        """record a write; a basic-slice view writes through to its base"""
+        if getattr(self, 'view_of', None) is None:
+            self.writes.append((cond, val, nanf))
+            return
+        base, _ = self.view_of
+        axes = self.view_axes
+
+        def to_view(bidx):
+            """(membership condition, view index) of a base index"""
+            cs, vi = [], []
+            for a, i in zip(axes, bidx):
+                if isinstance(a, Axis):
+                    if isinstance(a.step, int) and a.step == 1:
+                        cs.append(And(i >= a.start, i < a.start + a.count))
+                        vi.append(i - a.start)
+                    else:
+                        cs.append(And(i >= a.start, (i - a.start) % a.step == 0, (i - a.start) // a.step < a.count))
+                        vi.append((i - a.start) // a.step)
+                else:
+                    cs.append(i == a)
+            return And(*cs), tuple(vi)
+        base._push_write(lambda bidx: And(to_view(bidx)[0], cond(to_view(bidx)[1])),
+                         lambda bidx: val(to_view(bidx)[1]), lambda bidx: nanf(to_view(bidx)[1]))
 
     def map_(self, ctx, f):
         base = self.snapshot()
@@ -348,7 +374,7 @@ class SArr(PyObj):
                'floordiv': operator.floordiv, 'mod': operator.mod, 'pow': operator.pow,
                'Lt': operator.lt, 'LtE': operator.le, 'Gt': operator.gt, 'GtE': operator.ge,
                'Eq': operator.eq, 'NotEq': operator.ne}
-        inplace = op.startswith('i') and op[1:] in ops
+        inplace = op.startswith('i') and (op[1:] in ops or op[1:] in ('and', 'or'))
         name = op[1:] if inplace else op
         if name == 'neg':
             b = self.snapshot()
@@ -356,6 +382,16 @@ class SArr(PyObj):
         if name == 'invert':
             b = self.snapshot()
             return SArr(uid("not"), self.shape_, lambda idx: Not(b.at(idx)))
+        if name in ('and', 'or') and isinstance(other, SArr) and len(other.shape_) == len(self.shape_):
+            a_, o_ = self.snapshot(), other.snapshot()
+            ctx.oblige("safe", "operand_shapes_match.L%d" % ctx.cur_line,
+                       And(*[x == y for x, y in zip(self.shape_, other.shape_)]))
+            comb = And if name == 'and' else Or
+            res = SArr(uid(name), self.shape_, lambda idx: comb(a_.at(idx), o_.at(idx)))
+            if inplace:
+                self.elem, self.blank0, self.writes = res.elem, None, []
+                return self
+            return res
         if name not in ops:
             return NotImplemented
         f = ops[name]
@@ -552,3 +588,106 @@ def np_squeeze(ctx, x, *a, **k):
             return base.at(tuple(next(it) if i in keep else 0 for i in range(len(base.shape_))))
         return SArr(x.name + ".squeeze", tuple(x.shape_[i] for i in keep), elem)
     return x
+
+
+def _small_indices(shape):
+    import itertools
+    if all(isinstance(n, int) for n in shape):
+        tot = 1
+        for n in shape:
+            tot *= n
+        if tot <= 64:
+            return list(itertools.product(*[range(n) for n in shape]))
+    return None
+
+
+def np_any(ctx, x, axis=None, **kw):
+    """np.any(a): exists a True cell.  Small concrete shapes are expanded; otherwise the truth value is decided by
+    branching: True gives a witness index, False a universal fact (instantiated by oblige(at=[index tuples]))."""
+    if isinstance(x, (bool, Sym)):
+        return x
+    if isinstance(x, (list, tuple)):
+        return Or(*[v for v in x])
+    if not isinstance(x, SArr):
+        raise Undecided("np.any of %s" % type(x).__name__)
+    b = x.snapshot()
+    if axis is not None:
+        if len(b.shape_) == 2 and axis in (0, 1):
+            return AxisAny(ctx, b, axis)
+        raise Undecided("np.any(axis=%r)" % (axis,))
+    small = _small_indices(b.shape_)
+    if small is not None:
+        return Or(*[b.at(i) for i in small])
+    if ctx.free_branch():
+        w = tuple(ctx.fresh_int("any_w%d" % k) for k in range(len(b.shape_)))
+        ctx.assume(And(*[And(wi >= 0, wi < n) for wi, n in zip(w, b.shape_)]))
+        ctx.assume(b.at(w))
+        ctx.ghost.setdefault('any_witness', []).append((x, w))
+        return True
+    shape = b.shape_
+    ctx.ufacts.append(lambda t: Implies(And(*[And(ti >= 0, ti < n) for ti, n in zip(t, shape)]), Not(b.at(t)))
+                      if isinstance(t, tuple) and len(t) == len(shape) else True)
+    return False
+
+
+def np_all(ctx, x, axis=None, **kw):
+    if isinstance(x, (bool, Sym)):
+        return x
+    if isinstance(x, (list, tuple)):
+        return And(*[v for v in x])
+    if not isinstance(x, SArr) or axis is not None:
+        raise Undecided("np.all of %s" % type(x).__name__)
+    b = x.snapshot()
+    small = _small_indices(b.shape_)
+    if small is not None:
+        return And(*[b.at(i) for i in small])
+    neg = SArr(uid("notall"), b.shape_, lambda idx: Not(b.at(idx)))
+    return not np_any(ctx, neg)
+
+
+def AxisAny(ctx, b, axis):
+    """np.any(a, axis): 1-d array; element j is an uninterpreted flag linked to a witness / universal fact"""
+    other = 1 - axis
+    n_keep, n_red = b.shape_[other], b.shape_[axis]
+    F = z3.Function(uid("anyax"), z3.IntSort(), z3.BoolSort())
+    Wt = z3.Function(uid("anyax_w"), z3.IntSort(), z3.IntSort())
+
+    def cell(j, k):
+        return b.at((k, j)) if axis == 0 else b.at((j, k))
+    # F(j) -> cell(j, Wt(j)) with Wt(j) in range ;  cell(j,k) -> F(j)
+    res = SArr(uid("any_axis%d" % axis), (n_keep,), lambda idx: Sym(F(Sym.lift(idx[0]))))
+    res.any_link = (F, Wt, cell, n_red)
+    ctx.ufacts.append(lambda t: And(Implies(Sym(F(Sym.lift(t[0]))),
+                                            And(Sym(Wt(Sym.lift(t[0]))) >= 0, Sym(Wt(Sym.lift(t[0]))) < n_red,
+                                                cell(t[0], Sym(Wt(Sym.lift(t[0])))))),
+                                    Implies(And(t[1] >= 0, t[1] < n_red, cell(t[0], t[1])), Sym(F(Sym.lift(t[0])))))
+                      if isinstance(t, tuple) and len(t) == 2 and t and t[0] is not None and getattr(t, 'tag', 'axis') else True)
+    return res
+
+
+def np_nan_to_num(ctx, x, *a, **k):
+    if isinstance(x, SArr):
+        b = x.snapshot()
+        return SArr(uid("nan_to_num"), b.shape_, lambda idx: ite(b.isnan(idx), 0, b.at(idx)))
+    if isinstance(x, NaNType):
+        return 0.0
+    return x
+
+
+def np_isnan(ctx, x):
+    if isinstance(x, SArr):
+        b = x.snapshot()
+        return SArr(uid("isnan"), b.shape_, lambda idx: b.isnan(idx))
+    if isinstance(x, NaNType):
+        return True
+    if isinstance(x, (int, float, Sym)):
+        return False
+    raise Undecided("np.isnan of %s" % type(x).__name__)
+
+
+def np_isfinite_arr(ctx, x):
+    if isinstance(x, SArr):
+        b = x.snapshot()
+        return SArr(uid("isfinite"), b.shape_, lambda idx: Not(b.isnan(idx)))
+    from pyvc import lib
+    return lib.m_isfinite(ctx, x)
